@@ -3,6 +3,7 @@
   Block centres are the pixel-registered grid of the region (C07 normal forms give
   `east = nodes W dx ne true`, `north = nodes S dy nn true`); labels are nearest-centre indices.
 -/
+import VerdeModel.Gen.BlockSplit
 import VerdeModel.Lemmas.Blocks
 import VerdeModel.Props.C07
 namespace Verde.C08
@@ -177,5 +178,34 @@ theorem gen_block_lines_eq_model (es ns : List Rat) (region : Option (Rat × Rat
       rw [this]
       cases gridLines [r.w, r.e, r.s, r.n] ⟨shape, spacing, C07.adjOf adj, true⟩ <;> rfl
 
+
+/-! ## `block_split` as a whole, regenerated from the source (Gen/BlockSplit.lean) -/
+
+/-- **Bridge.**  `block_split` as regenerated from the source (prelude + nearest-centre query) is the model's `blockSplit`. -/
+theorem gen_block_split_eq_model (es ns : List Rat) (region : Option (Rat × Rat × Rat × Rat)) (shape : Option (Nat × Nat))
+    (spacing : Option (List Rat)) (adj : String) :
+    Gen.blockSplit es ns spacing adj region (shape.map fun p => ((p.1 : Int), (p.2 : Int)))
+      = blockSplit es ns ⟨region.map quadList, shape, spacing, C07.adjOf adj⟩ := by
+  unfold Gen.blockSplit blockSplit
+  rw [gen_block_lines_eq_model]
+  cases blockRegion es ns ⟨region.map quadList, shape, spacing, C07.adjOf adj⟩ with
+  | error e => rfl
+  | ok reg =>
+    simp only [Except.bind, bind]
+    try (cases gridLines reg ⟨shape, spacing, C07.adjOf adj, true⟩ <;> rfl)
+
+/-- **Containing block = label, about the source as it is now:** whatever `block_split` returns, every label is the index of a nearest block centre
+    among the centres it returns (the model's `label_valid_and_nearest` transported along the bridge). -/
+theorem src_block_split_labels (es ns : List Rat) (region : Option (Rat × Rat × Rat × Rat)) (shape : Option (Nat × Nat))
+    (spacing : Option (List Rat)) (adj : String) (centres : List (Rat × Rat)) (labels : List Nat)
+    (h : Gen.blockSplit es ns spacing adj region (shape.map fun p => ((p.1 : Int), (p.2 : Int))) = .ok (centres, labels)) :
+    labels = (es.zip ns).map (labelOf centres) := by
+  rw [gen_block_split_eq_model] at h
+  unfold blockSplit at h
+  simp only [bind, Except.bind, pure, Except.pure] at h
+  repeat' split at h
+  all_goals first
+    | (cases h; rfl)
+    | cases h
 
 end Verde.C08
